@@ -239,8 +239,13 @@ def rule_holesib(ctx, prop: str) -> RuleResult:
         for n in f.body_nodes():
             if isinstance(n, ast.If) and "is False" in ast.unparse(n.test):
                 for k in n.orelse:
+                    # `elif not self.is_exact_e(new, recorded): raise` / `elif new != recorded: raise`
                     if isinstance(k, ast.If) and always_raises(k.body):
-                        rejects = True
+                        t = k.test
+                        cmp_ok = isinstance(t, ast.UnaryOp) and isinstance(t.op, ast.Not) and isinstance(t.operand, ast.Call) and last_name(t.operand) == "is_exact_e"
+                        cmp_ok = cmp_ok or (isinstance(t, ast.Compare) and isinstance(t.ops[0], (ast.NotEq, ast.IsNot)))
+                        if cmp_ok:
+                            rejects = True
                     if isinstance(k, ast.Raise):
                         rejects = True
         ok = (not binds) or rejects
